@@ -62,6 +62,7 @@ type Schema struct {
 	JSONChecks []JSONCheck  `json:"jsonchecks"`
 	Composites []Composite  `json:"composites"`
 	Other      []string     `json:"other"` // every other statement, tokens joined by one space
+	Statements [][]string   `json:"statements"` // every statement that is not CREATE TABLE / TYPE / FUNCTION, as tokens
 	Functions  []string     `json:"functions"`
 }
 
@@ -69,12 +70,25 @@ func joinToks(ts []Tok) string {
 	parts := make([]string, len(ts))
 	for i, t := range ts {
 		if t.K == "str" {
-			parts[i] = "'" + t.V + "'"
+			q := t.Q
+			if q == "" {
+				q = "'"
+			}
+			parts[i] = q + t.V + q
 		} else {
 			parts[i] = t.V
 		}
 	}
 	return strings.Join(parts, " ")
+}
+
+// TokStrings renders tokens one by one (string literals with their quotes).
+func TokStrings(ts []Tok) []string {
+	out := make([]string, len(ts))
+	for i, t := range ts {
+		out[i] = joinToks([]Tok{t})
+	}
+	return out
 }
 
 func kw(t Tok, s string) bool { return t.K == "id" && strings.EqualFold(t.V, s) }
@@ -222,8 +236,11 @@ func ParseDDL(src string) (*Schema, error) {
 	if err != nil {
 		return nil, err
 	}
-	s := &Schema{Tables: []Table{}, FKs: []FK{}, Defaults: []Default{}, Checks: []TableCheck{}, JSONChecks: []JSONCheck{}, Composites: []Composite{}, Other: []string{}, Functions: []string{}}
+	s := &Schema{Tables: []Table{}, FKs: []FK{}, Defaults: []Default{}, Checks: []TableCheck{}, JSONChecks: []JSONCheck{}, Composites: []Composite{}, Other: []string{}, Functions: []string{}, Statements: [][]string{}}
 	for _, st := range splitStatements(toks) {
+		if !(len(st) > 1 && kw(st[0], "CREATE") && (kw(st[1], "TABLE") || kw(st[1], "TYPE") || kw(st[1], "FUNCTION") || kw(st[1], "OR"))) {
+			s.Statements = append(s.Statements, TokStrings(st))
+		}
 		switch {
 		case len(st) > 3 && kw(st[0], "CREATE") && kw(st[1], "TABLE"):
 			t := Table{Name: st[2].V, Cols: []Col{}}
